@@ -39,6 +39,16 @@ class _Names:
                 for n in _walk(fi.node):
                     if isinstance(n, ast.Attribute) and isinstance(n.ctx, ast.Store) and n.attr == "matched_type" and isinstance(n.value, ast.Name) and n.value.id != "self":
                         return fi.name
+            # the stores may live in a method of the token class the matcher's method hands everything to
+            setters = {m.name for c in facts().all_classes() for m in c.all_methods()
+                       if any(isinstance(n, ast.Attribute) and isinstance(n.ctx, ast.Store) and n.attr == "matched_type"
+                              and isinstance(n.value, ast.Name) and n.value.id == "self" for n in _walk(m.node))}
+            for fi in cls.all_methods():
+                params = {a.arg for a in fi.node.args.posonlyargs + fi.node.args.args + fi.node.args.kwonlyargs} - {"self"}
+                for n in _walk(fi.node):
+                    if isinstance(n, ast.Call) and isinstance(n.func, ast.Attribute) and n.func.attr in setters \
+                            and isinstance(n.func.value, ast.Name) and n.func.value.id in params:
+                        return fi.name
             raise AnalysisError("anchor vanished: no TokenMatcher method stores token.matched_type (the matched-token sink)")
         return self._get("SINK", find)
 
@@ -77,37 +87,51 @@ class _Names:
     def _dialect_switch(self):
         def find():
             cls = facts().cls(MQ)
-            for fi in cls.all_methods():
-                if fi.name in ("__init__", "reset"):
-                    continue
-                looked = None
-                for n in _walk(fi.node):
-                    if isinstance(n, ast.Assign) and len(n.targets) == 1 and isinstance(n.targets[0], ast.Name) and isinstance(n.value, ast.Call) \
-                            and isinstance(n.value.func, ast.Attribute) and n.value.func.attr == "for_name":
-                        looked = n.targets[0].id
-                if looked is None:
-                    # the look-up result may be stored at once: self.<dialect> = Dialect.for_name(...)
-                    for n in _walk(fi.node):
-                        if isinstance(n, ast.Call) and isinstance(n.func, ast.Attribute) and n.func.attr == "for_name":
-                            looked = ""
-                    if looked is None:
+
+            def scan(lookups):
+                """first method that calls one of `lookups` and stores the result on self"""
+                helpers = []
+                for fi in cls.all_methods():
+                    if fi.name in ("__init__", "reset"):
                         continue
-                ps = fi.params()
-                dialect = dname = ktypes = None
-                for n in _walk(fi.node):
-                    if isinstance(n, ast.Assign):
-                        for t in n.targets:
-                            if isinstance(t, ast.Attribute) and isinstance(t.value, ast.Name) and t.value.id == ps[0]:
-                                v = n.value
-                                if isinstance(v, ast.Name) and v.id == looked:
-                                    dialect = dialect or t.attr
-                                elif isinstance(v, ast.Call) and isinstance(v.func, ast.Attribute) and v.func.attr == "for_name":
-                                    dialect = dialect or t.attr
-                                elif isinstance(v, ast.Name) and len(ps) > 1 and v.id == ps[1]:
-                                    dname = dname or t.attr
-                                elif isinstance(v, (ast.Call, ast.Dict, ast.DictComp)) and (not isinstance(v, ast.Call) or getattr(v.func, "id", getattr(v.func, "attr", "")) in ("defaultdict", "dict")):
-                                    ktypes = ktypes or t.attr
-                return (fi.name, dialect or "dialect", dname or "dialect_name", ktypes or "keyword_types")
+                    looked = None
+                    for n in _walk(fi.node):
+                        if isinstance(n, ast.Assign) and len(n.targets) == 1 and isinstance(n.targets[0], ast.Name) and isinstance(n.value, ast.Call) \
+                                and isinstance(n.value.func, ast.Attribute) and n.value.func.attr in lookups:
+                            looked = n.targets[0].id
+                    if looked is None:
+                        # the look-up result may be stored at once: self.<dialect> = Dialect.for_name(...)
+                        for n in _walk(fi.node):
+                            if isinstance(n, ast.Call) and isinstance(n.func, ast.Attribute) and n.func.attr in lookups:
+                                looked = ""
+                        if looked is None:
+                            continue
+                    ps = fi.params()
+                    dialect = dname = ktypes = None
+                    for n in _walk(fi.node):
+                        if isinstance(n, ast.Assign):
+                            for t in n.targets:
+                                if ps and isinstance(t, ast.Attribute) and isinstance(t.value, ast.Name) and t.value.id == ps[0]:
+                                    v = n.value
+                                    if isinstance(v, ast.Name) and v.id == looked:
+                                        dialect = dialect or t.attr
+                                    elif isinstance(v, ast.Call) and isinstance(v.func, ast.Attribute) and v.func.attr in lookups:
+                                        dialect = dialect or t.attr
+                                    elif isinstance(v, ast.Name) and len(ps) > 1 and v.id == ps[1]:
+                                        dname = dname or t.attr
+                                    elif isinstance(v, (ast.Call, ast.Dict, ast.DictComp)) and (not isinstance(v, ast.Call) or getattr(v.func, "id", getattr(v.func, "attr", "")) in ("defaultdict", "dict")):
+                                        ktypes = ktypes or t.attr
+                    if dialect is None and any(isinstance(n, ast.Return) and n.value is not None for n in _walk(fi.node)):
+                        helpers.append(fi.name)     # looks the dialect up and hands it back: the switch is its caller
+                        continue
+                    return (fi.name, dialect or "dialect", dname or "dialect_name", ktypes or "keyword_types"), helpers
+                return None, helpers
+
+            got, helpers = scan({"for_name"})
+            if got is None and helpers:
+                got, _h = scan(set(helpers))
+            if got is not None:
+                return got
             # fall back to the method that assigns self.dialect
             for fi in cls.all_methods():
                 if fi.name in ("__init__", "reset"):
